@@ -1,5 +1,6 @@
 SPECIFICATION Spec
 CONSTANTS
   MaxWin = 4
-INVARIANTS RepInv SumIsWindow CachedAgrees OutRefines NonNeg ClampIdle ResetInit
+  CloneFuel = 2
+INVARIANTS RepInv SumIsWindow CachedAgrees OutRefines NonNeg ClampIdle ResetInit CloneSame Independent
 CHECK_DEADLOCK FALSE
